@@ -253,6 +253,9 @@ func (sc *Scen) doStep(sp stepSpec) (err error, panicked bool) {
 		}
 	}
 	e := sc.env
+	for _, h := range doStepHooks {
+		h(sc, &sp) // additive: per-property files may adjust the plan / wrap the call of a step (registerDoStepHook)
+	}
 	pre := ""
 	if !sp.fresh {
 		if sp.restart {
@@ -380,6 +383,11 @@ var stepObservers = map[string]stepObserver{}
 func registerObserver(name string, f stepObserver) { stepObservers[name] = f }
 
 var activeObserver stepObserver
+
+// doStepHooks run at the start of every doStep (init-time registration by per-property files)
+var doStepHooks []func(sc *Scen, sp *stepSpec)
+
+func registerDoStepHook(h func(sc *Scen, sp *stepSpec)) { doStepHooks = append(doStepHooks, h) }
 
 func init() {
 	register("fsm", "drive the real swap state machines; emit step-level correspondence cases", func(args []string) error {
